@@ -452,7 +452,7 @@ func init() {
 		Register(&Check{Prop: "C09", Sub: sub, Weight: w, Real: real, Stub: stub,
 			Rule: "operation sequences (bulk add to a size around a 1000-header file boundary, then add/revert/save/load/GetHeaders/query steps) drawn from the tape and compared with a slice-of-headers model after every step; non-trivial = at least 3 operations.",
 			Run: func(c *Ctx) {
-				cases := 12
+				cases := 8
 				if c.Tier == "thorough" {
 					cases = 40
 				}
@@ -473,6 +473,10 @@ func init() {
 	}
 	mk("blockstore-model", false, 2)
 	mk("blockstore-model-diskfaults", true, 1)
+	Register(&Check{Prop: "C09", Sub: "single-failure-positions", Weight: 1, Real: real, Stub: stub,
+		Req:  []string{"store_single_failure_checked"},
+		Rule: "histories of adds (Add/AddNext), saves and reverts around the 1000-header file boundaries (reverts across one and two files), run once per storage-operation position with that operation failing once; the caller saves and tries the step again; afterwards the running repository and a newly loaded one answer like the model at every checked height (shared with C10).",
+		Run:  runC10storeFail})
 	Register(&Check{Prop: "C09", Sub: "revert-boundary-sweep", Once: true, Real: real, Stub: stub,
 		Run: func(c *Ctx) {
 			// every revert target within +-2 of each file boundary and of the tip, for store
